@@ -130,8 +130,9 @@ def check_case(case):
     if not gap <= 1e-3 * (1 + Fstar):
         v.append(("optimal", "obj=%.10g but the regularised minimum is %.10g (gap %.3g > 1e-3(1+F*)) [%s, nf=%d]" % (
             s.obj, Fstar, gap, s.msg, s.nf)))
-    if gap < -1e-7 * (1 + Fstar) and np.all(x >= lo) and np.all(x <= hi):
-        raise common.HarnessError("oracle is not optimal on case %r: solver found %r < %r" % (case, s.obj, Fstar))
+    # sanity of the oracle itself: judged on the objective recomputed here at soln.x, never on the solver's own number
+    if Fx - Fstar < -1e-7 * (1 + Fstar) and np.all(x >= lo) and np.all(x <= hi):
+        raise common.HarnessError("oracle is not optimal on case %r: F(soln.x)=%r < %r" % (case, Fx, Fstar))
     if np.any(np.abs(xstar - lo) < 1e-7) or np.any(np.abs(xstar - hi) < 1e-7):
         tags.append("active_at_optimum")
     if case["reg"] == "l1" and np.any(np.abs(xstar) < 1e-9):
